@@ -33,6 +33,12 @@ CHECKS.update({
 CHECKS.update({
  "C08": ("Metamorphic relations as oracle: each deterministic rule and scoring utility is run on a profile and, under the same path condition, on its renamed / reordered / split (symbolic split point) / condensed / candidate-permuted variant, rounds compared (scores by z3 validity). Hash-seed independence: the same harness is explored in interpreters with different PYTHONHASHSEED and z3 decides whether some weight vector falls in a leaf of one interpreter but in no equal-outcome leaf of the other.", "§4 C08"),
 })
+CHECKS.update({
+ "C14": ("All 13 generator classes built with symbolic supports/cohesion (exact real arithmetic), random stubs forking over every outcome and an apportionment stub over every admissible split: on every path size, integer weights, declared candidates, completeness, zero-support handling, ballot length/points, per-bloc sums and the Huntington-Hill call contract are checked. N <= 2 (3 thorough), slates <= 2 candidates.", "§4 C14"),
+ "C15": ("PreferenceInterval, combine_preference_intervals, name_BradleyTerry._BT_pdf, slate_BradleyTerry._compute_ballot_type_dist and the name models' combined intervals with symbolic supports/cohesion: every table entry compared with its defining rational function by z3 after exact polynomial normalisation (real arithmetic; rounding outside the claim).", "§4 C15"),
+ "C16": ("Generators run with symbolic parameters and probabilistic random stubs: per parameter cell (AllSAT over parameter-only branch atoms) the summed path probability of every ballot multiset must equal the documented law as a rational identity (name-PL, short-PL, name-Cumulative, slate-PL, name-BT, slate-BT, AlternatingCrossover given the split, IC); MCMC samplers via one-step kernels and detailed balance; alignment of names and probabilities in every np.random.choice; spatial models: every ballot ranks by increasing distance for every stream.", "§4 C16"),
+ "C17": ("RandomDictator / BoostedRandomDictator seat-by-seat laws and uniformity of random tiebreak resolutions: cells over the weight space, summed path probabilities equal the closed forms as rational identities (z3), each cell additionally cross-validated by concretely enumerating the real code's random outcomes.", "§4 C17"),
+})
 NOT_APPLICABLE = {}
 def main():
     props = [json.loads(l)["id"] for l in open(os.path.join(ROOT, "properties.jsonl"))]
